@@ -337,6 +337,22 @@ Check (C01_eval_refines_spec :
     NS.theories.LiveCheck.x_residual (NS.theories.LiveCheck.plan_ok3 p ss fs) = ([], []) ->
     run_impl (Some (ss, fs)) eps fuel p = (o, NS.proofs.ScopeProofs.ending_of e)).
 
+(* the same against C03's strongest statement (C03_prune_sound_all_classes: plan_ok4, i.e. the
+   four classes plus stores whose right-hand side calls pure, trap-free user functions) *)
+Theorem C01_eval_refines_spec_all_classes :
+  ltac:(let t := type of NS.proofs.C01Compose.eval_refines_spec_all_classes in exact t).
+Proof. exact NS.proofs.C01Compose.eval_refines_spec_all_classes. Qed.
+Print Assumptions C01_eval_refines_spec_all_classes.
+Check (C01_eval_refines_spec_all_classes :
+  forall eps fuel p ss fs o e,
+    NS.theories.LexResolve.lexical p = true ->
+    NS.theories.Spec.run_spec eps fuel p = (o, e) ->
+    NS.proofs.ScopeProofs.comparable e = true ->
+    NS.theories.PlanCheck.v_checked (NS.theories.LiveCheck.x_main (NS.theories.LiveCheck.plan_ok4 p ss fs)) = true ->
+    NS.theories.LiveCheck.x_checked (NS.theories.LiveCheck.plan_ok4 p ss fs) = true ->
+    NS.theories.LiveCheck.x_residual (NS.theories.LiveCheck.plan_ok4 p ss fs) = ([], []) ->
+    run_impl (Some (ss, fs)) eps fuel p = (o, NS.proofs.ScopeProofs.ending_of e)).
+
 (* ================================================================== round 3: end-to-end composition
    theories/Pipeline.v assembles lexer -> parser -> named tree -> static rules -> evaluator from SOURCE
    BYTES (tied to the code by lib/props/pipeline.py on source text).  Statements as in
